@@ -163,7 +163,7 @@ func keyContexts() *hk.Result {
 				for _, ev := range []struct {
 					id         string
 					salt, info []byte
-				}{{"ev-1", nil, nil}, {"ev-1", []byte("ev-salt"), nil}, {"ev-1", nil, []byte("ev-info")}, {"ev-2", []byte("ev-salt"), []byte("ev-info")}, {"", nil, nil}} {
+				}{{"ev-1", nil, nil}, {"ev-1", []byte("ev-salt"), nil}, {"ev-1", nil, []byte("ev-info")}, {"ev-2", []byte("ev-salt"), []byte("ev-info")}, {"ev-3", []byte{}, []byte{}}, {"", nil, nil}} {
 					ep := &ewPayload{id: ev.id, salt: ev.salt, info: ev.info, S: val, B: []byte(val), HS: val, HB: []byte(val), HS2: val}
 					out, err := mk().Process(ctx, &el.Event{Type: "t", Payload: ep})
 					name := fmt.Sprintf("event-wrapper id=%q evsalt=%q evinfo=%q val=%q salt=%q info=%q", ev.id, ev.salt, ev.info, trunc(val), fsalt, finfo)
@@ -313,6 +313,7 @@ var rotHarness = &seqmc.Harness{
 // ---- (d) Rotate || Process || Process --------------------------------------------------------
 
 type concSc struct {
+	NilOld bool // the filter starts without salt and info
 	Name   string
 	Rot    string // rotate | rotp
 	Procs  int
@@ -333,9 +334,12 @@ func concScenarios(tier string) []concSc {
 		{Rot: "rotp", Procs: 2, Bound: b},
 		{Rot: "rotate", Procs: 1, Bound: b + 1, EW: true},
 		{Rot: "rotate", Procs: 1, Bound: b + 1, NoWrap: true},
+		{Rot: "rotate", Procs: 1, Bound: b + 1, EW: true, NilOld: true},
+		{Rot: "rotp", Procs: 1, Bound: b + 1, EW: true, NilOld: true},
+		{Rot: "rotate", Procs: 2, Bound: b, NilOld: true},
 	}
 	for i := range out {
-		out[i].Name = fmt.Sprintf("concurrent %s || %d x Process (event-wrapper=%v, filter starts without wrapper=%v)", out[i].Rot, out[i].Procs, out[i].EW, out[i].NoWrap)
+		out[i].Name = fmt.Sprintf("concurrent %s || %d x Process (event-wrapper=%v, filter starts without wrapper=%v, without salt/info=%v)", out[i].Rot, out[i].Procs, out[i].EW, out[i].NoWrap, out[i].NilOld)
 	}
 	return out
 }
@@ -344,6 +348,9 @@ func concBody(c concSc) func() string {
 	return func() string {
 		ctx := context.Background()
 		oldM := keyMaterial{shapes.NewWrapper(1), []byte("s-old"), []byte("i-old")}
+		if c.NilOld {
+			oldM.salt, oldM.info = nil, nil
+		}
 		newM := keyMaterial{shapes.NewWrapper(2), []byte("s-new"), []byte("i-new")}
 		f := &encrypt.Filter{Wrapper: oldM.w, HmacSalt: oldM.salt, HmacInfo: oldM.info}
 		if c.NoWrap {
